@@ -2,8 +2,17 @@
 From Coq Require Import List NArith.
 From PatVerif Require Import Model.Codecs Gen.Src.
 Import ListNotations. Open Scope N_scope.
-Example tie_types : [s_type1; s_type2; s_type3; s_type5] = [1; 2; 3; 5]. Proof. reflexivity. Qed.
-Example tie_ne : [s_ne1; s_nk2] = [N.of_nat ne1; N.of_nat ne2]. Proof. reflexivity. Qed.
-Example tie_token_fields : (s_token1_fields ++ [s_nk1], s_token2_fields, s_token3_fields, s_token5_fields) =
-  ([32; 32; 32; 48], [32; 32; 32; 256], [32; 32; 32; 256], [32; 32; 32; 64]). Proof. reflexivity. Qed.
-Example tie_challenge_sep : (s_challenge_sep_marshal, s_challenge_sep_unmarshal) = ([44], [44]). Proof. reflexivity. Qed.
+Ltac t := vm_compute; first [reflexivity | exact I | repeat split; reflexivity].
+Example tie_type1 : tie s_type1 (fun v => v = 1). Proof. t. Qed.
+Example tie_type2 : tie s_type2 (fun v => v = 2). Proof. t. Qed.
+Example tie_type3 : tie s_type3 (fun v => v = 3). Proof. t. Qed.
+Example tie_type5 : tie s_type5 (fun v => v = 5). Proof. t. Qed.
+Example tie_ne1 : tie s_ne1 (fun v => v = N.of_nat ne1). Proof. t. Qed.
+Example tie_ne2 : tie s_nk2 (fun v => v = N.of_nat ne2). Proof. t. Qed.
+Example tie_nk1 : tie s_nk1 (fun v => v = 48). Proof. t. Qed.
+Example tie_token1 : tie s_token1_fields (fun v => v = [32; 32; 32]). Proof. t. Qed.
+Example tie_token2 : tie s_token2_fields (fun v => v = [32; 32; 32; 256]). Proof. t. Qed.
+Example tie_token3 : tie s_token3_fields (fun v => v = [32; 32; 32; 256]). Proof. t. Qed.
+Example tie_token5 : tie s_token5_fields (fun v => v = [32; 32; 32; 64]). Proof. t. Qed.
+Example tie_challenge_sep_m : tie s_challenge_sep_marshal (fun v => v = [44]). Proof. t. Qed.
+Example tie_challenge_sep_u : tie s_challenge_sep_unmarshal (fun v => v = [44]). Proof. t. Qed.
